@@ -16,7 +16,9 @@ FLAVOURS = ["asyncio", "trio", "threading"]
 CONTEXTS = ["outside", "asyncio", "trio", "threading"]
 ARGS = [((), {}), ((1,), {}), ((1, "a"), {"k": 2}), ((), {"k": 2, "m": None}),
         ((1,), {"k": 2}), ((1, "a"), {}), ((1, "a"), {"k": 2, "m": None}), ((), {"k": 2}),
-        ((1,), {"k": 2, "m": None})]
+        ((1,), {"k": 2, "m": None}),
+        # an argument that cannot be printed (whoever describes the payload must cope)
+        ((K.Unprintable(),), {"k": K.Unprintable()})]
 
 
 def worker(ident, flavour, args=((), {}), falsy=False):
@@ -46,8 +48,9 @@ class Scenario:
         keep = env.shared.setdefault("keep", [])
         # queued before start
         for index, flavour in enumerate(params.get("queued", ())):
-            kit.submit(self._note(worker("q%d-%s" % (index, flavour), flavour,
-                                         ARGS[(index + 1) % len(ARGS)])))
+            kit.submit(self._note(worker(
+                "q%d-%s" % (index, flavour), flavour,
+                ARGS[params.get("queued_args", (index + 1) % len(ARGS))])))
         for index, flavour in enumerate(params.get("services_before", ())):
             keep.append(kit.service_class(
                 self._note(worker("sb%d-%s" % (index, flavour), flavour,
@@ -117,6 +120,10 @@ class Scenario:
             steps = [("service", desc)]
             if shape == "cached":
                 steps += [("sleep", 1.3), ("service", desc)]
+            if shape == "equal":
+                # a second instance, equal to the first: both are to be started
+                steps += [("sleep", 1.3), ("service", desc)]
+                desc["_expect"] = 2
             if context == "before":
                 keep.append(kit.service_instance(desc))
                 outside_jobs += [(1.3, step) for step in steps[2:]]
@@ -269,8 +276,9 @@ class Scenario:
                 if tuple(data["args"]) != want_args or data["kwargs"] != want_kwargs:
                     violations.append((
                         "%s:wrong-arguments:%s" % (label, flavour),
-                        "%s received args=%r kwargs=%r, submitted args=%r kwargs=%r"
-                        % (ident, data["args"], data["kwargs"], want_args, want_kwargs)))
+                        "%s received args=%s kwargs=%s, submitted args=%s kwargs=%s"
+                        % (ident, K.safe_repr(data["args"]), K.safe_repr(data["kwargs"]),
+                           K.safe_repr(want_args), K.safe_repr(want_kwargs))))
                 if not ident.startswith("inner"):
                     # (payloads run through execute() are C10's business: a thread flavour
                     # execute runs in the caller's thread)
@@ -314,6 +322,12 @@ def scenario_params(tier):
                 out.append({"late": [(context, flavour, how, args_index)], "late_at": late_at})
     for flavour, how in itertools.product(FLAVOURS, ["adopt", "service"]):
         out.append({"late": [("early", flavour, how, 2 if how == "adopt" else 0)]})
+    # 1a. arguments that cannot be printed: queued, from outside, from a payload
+    unprintable = len(ARGS) - 1
+    for flavour in FLAVOURS:
+        out.append({"queued": [flavour], "queued_args": unprintable})
+        for context in ("outside", "trio"):
+            out.append({"late": [(context, flavour, "adopt", unprintable)], "late_at": 0.0})
     # 2. queued payloads and services created before start: 0..2 per flavour
     counts = [(a, t, s) for a, t, s in itertools.product(range(3), repeat=3)]
     for a, t, s in counts:
@@ -342,7 +356,8 @@ def scenario_params(tier):
     # 3c. service classes of a particular make: a singleton constructed twice, a subclass of
     # a service class (decorated again with another flavour, or not decorated again)
     for context, flavour, shape in itertools.product(
-            ["before", "outside", "trio"], FLAVOURS, ["cached", "redecorated", "subclass"]):
+            ["before", "outside", "trio"], FLAVOURS,
+            ["cached", "redecorated", "subclass", "equal"]):
         out.append({"shapes": [(context, flavour, shape)]})
     # 3d. adopt into a flavour whose thread is waiting in execute() for the adopter's flavour
     for blocked, busy in itertools.permutations(FLAVOURS, 2):
